@@ -9,10 +9,10 @@ from vlib import ToolError, log
 
 PROPS = ["C01", "C02", "C03", "C04", "C05", "C06", "C07", "C08", "C09", "C10", "C11", "C12"]
 
-EXACT = "cx,rect,cxmix,cxshift"
+EXACT = "cx,rect,cxmix,cxshift,rectw"
 ROUND = "aff-cx,aff-cxmix,aff-cxshift,aff-rect"
 ALLF = EXACT + "," + ROUND
-SHARED = "cx,rect,cx,cxshift,cxmix,aff-cx"      # weighted towards shared boundary segments
+SHARED = "cx,rect,cx,cxshift,cxmix,aff-cx,rectw"      # weighted towards shared boundary segments
 
 
 def ops(kind, fams, count, kmax=3, max_edges=120):
@@ -43,6 +43,7 @@ def plan(prop, tier):
                  [corpus("fixed_findings.ndjson"), corpus("hand.ndjson"),
                   ops("single", ALLF, 600 if q else 5000, 3 if q else 4, 120 if q else 160),
                   ops("deg", EXACT, 40 if q else 200),
+                  ops("single", "rectw", 700 if q else 6000, 4, 160), ops("five", "rectw", 60 if q else 600, 3, 120),
                   tri(2, 840, 3 if q else 1, 2)])],
         "C05": [("partition", {"C05"}, "any", "release",
                  [ops("five", ALLF, 300 if q else 3000, 3 if q else 4, 100 if q else 140)])],
